@@ -154,12 +154,11 @@ def handleC15 : List String → Option String
     let ts ← parseNatList ts
     let ws := fromRdtypes ts
     some ("ok " ++ showWindows ws ++ " " ++ toHexP (bitmapWire ws))
-  | "c15.signzone" :: cut :: origin :: signer :: nodes => do
-    let cut ← parseBool cut
+  | "c15.signzone" :: origin :: signer :: nodes => do
     let origin ← parseName origin
     let signer ← parseBool signer
     let nodes ← nodes.mapM parseZNode
-    let evts := signZoneNsec { nsecConsts with cutTypes := cut } origin nodes signer
+    let evts := signZoneNsec nsecConsts origin nodes signer
     some ("ok " ++ (if evts.isEmpty then "-" else " ".intercalate (evts.map showEvt)))
   | "c15.chainspec" :: origin :: nodes => do
     let origin ← parseName origin
